@@ -61,6 +61,13 @@ pub struct LMovie {
     pub mdat_first: bool,
     /// filler bytes at the start of the mdat payload (so that the first chunk is not at the payload start)
     pub mdat_lead: usize,
+    /// write mvhd/tkhd/mdhd in their version-1 (64-bit) form although the values would fit version 0
+    pub force_v1: bool,
+    /// 64-bit size header on mdat
+    pub large_mdat: bool,
+    /// extra top-level boxes placed between ftyp and the rest / after everything
+    pub top_front: Vec<Node>,
+    pub top_back: Vec<Node>,
 }
 
 impl LMovie {
@@ -78,7 +85,7 @@ impl LMovie {
     }
     pub fn new(timescale: u32, tracks: Vec<LTrack>) -> LMovie {
         let placement = Self::default_placement(&tracks);
-        LMovie { timescale, tracks, placement, moov_extra: vec![], mdat_first: false, mdat_lead: 3 }
+        LMovie { timescale, tracks, placement, moov_extra: vec![], mdat_first: false, mdat_lead: 3, force_v1: false, large_mdat: false, top_front: vec![], top_back: vec![] }
     }
 }
 
@@ -224,12 +231,18 @@ pub fn stbl_of(t: &LTrack, rel: &[u64]) -> Node {
     Node::kids(b"stbl", kids)
 }
 
-pub fn trak_of(t: &LTrack, movie_ts: u32, rel: &[u64]) -> Node {
+pub fn trak_of(t: &LTrack, movie_ts: u32, rel: &[u64], force_v1: bool) -> Node {
     let media_dur: u64 = t.samples.iter().map(|s| s.delta as u64).sum();
     let movie_dur = if t.timescale == 0 { 0 } else { (media_dur as u128 * movie_ts as u128 / t.timescale as u128) as u64 };
     let (h, hname) = handler_of(t.codec);
     let is_video = matches!(t.codec, Codec::Avc | Codec::Hevc | Codec::Vp9);
-    let mut kids = vec![tkhd(&Tkhd::new(t.id, movie_dur, if is_video { 320 } else { 0 }, if is_video { 240 } else { 0 }))];
+    let mut tk = Tkhd::new(t.id, movie_dur, if is_video { 320 } else { 0 }, if is_video { 240 } else { 0 });
+    let mut md = Mdhd::new(t.timescale, media_dur);
+    if force_v1 {
+        tk.version = 1;
+        md.version = 1;
+    }
+    let mut kids = vec![tkhd(&tk)];
     if let Some(v) = t.edts {
         kids.push(edts(Some(elst(v, 0, &[ElstEntry { segment_duration: movie_dur, media_time: 0, rate_int: 1, rate_frac: 0 }]))));
     }
@@ -241,7 +254,7 @@ pub fn trak_of(t: &LTrack, movie_ts: u32, rel: &[u64]) -> Node {
     }
     minf.push(dinf());
     minf.push(stbl_of(t, rel));
-    kids.push(Node::kids(b"mdia", vec![mdhd(&Mdhd::new(t.timescale, media_dur)), hdlr(0, 0, h, hname), Node::kids(b"minf", minf)]));
+    kids.push(Node::kids(b"mdia", vec![mdhd(&md), hdlr(0, 0, h, hname), Node::kids(b"minf", minf)]));
     Node::kids(b"trak", kids)
 }
 
@@ -261,19 +274,29 @@ pub fn nodes(m: &LMovie) -> Vec<Node> {
         })
         .max()
         .unwrap_or(0);
-    moov_kids.push(mvhd(&Mvhd::new(m.timescale, longest, m.tracks.iter().map(|t| t.id).max().unwrap_or(0) + 1)));
+    let mut mv = Mvhd::new(m.timescale, longest, m.tracks.iter().map(|t| t.id).max().unwrap_or(0) + 1);
+    if m.force_v1 {
+        mv.version = 1;
+    }
+    moov_kids.push(mvhd(&mv));
     for (ti, t) in m.tracks.iter().enumerate() {
-        moov_kids.push(trak_of(t, m.timescale, &rel[ti]));
+        moov_kids.push(trak_of(t, m.timescale, &rel[ti], m.force_v1));
     }
     moov_kids.extend(m.moov_extra.iter().cloned());
     let moov = Node::kids(b"moov", moov_kids);
     let ft = ftyp(*b"isom", 512, &[*b"isom", *b"iso2", *b"mp41"]);
-    let md = mdat(payload);
+    let md = mdat(payload).with_large(m.large_mdat);
+    let mut v = vec![ft];
+    v.extend(m.top_front.iter().cloned());
     if m.mdat_first {
-        vec![ft, md, moov]
+        v.push(md);
+        v.push(moov);
     } else {
-        vec![ft, moov, md]
+        v.push(moov);
+        v.push(md);
     }
+    v.extend(m.top_back.iter().cloned());
+    v
 }
 
 /// Serialise; returns (file bytes, absolute position of the mdat payload).
